@@ -864,8 +864,11 @@ fn do_command_substitution_for_dollar(sh: &mut Shell, tokens: &mut types::Tokens
                     cr
                 }
                 Err(e) => {
+                    // an inner command that cannot be planned yields an empty
+                    // replacement; `continue` here would spin forever since
+                    // `line` is left unchanged.
                     println_stderr!("cicada: {}", e);
-                    continue;
+                    types::CommandResult::from_status(0, 1)
                 }
             };
 
